@@ -471,7 +471,8 @@ fn parse_mh2o_chunk<R: Read + Seek>(
 
                 // Calculate exact byte count needed for bitmap
                 let tile_count = (instance.width as usize) * (instance.height as usize);
-                let byte_count = tile_count.div_ceil(8);
+                // A liquid instance covers at most 8x8 tiles: the bitmap fits in 8 bytes
+                let byte_count = tile_count.div_ceil(8).min(8);
 
                 // Read only the exact bytes needed (not padded to 8)
                 let mut bitmap_bytes = vec![0u8; byte_count];
@@ -518,8 +519,8 @@ fn parse_mh2o_chunk<R: Read + Seek>(
                         // Read vertices and place them at correct grid positions
                         // Vertices are stored in row-major order: z * 9 + x
                         // CRITICAL: Clamp coordinates to [0, 8] - some WoW files have invalid ranges
-                        let z_end = ((instance.y_offset + instance.height) as usize).min(8);
-                        let x_end = ((instance.x_offset + instance.width) as usize).min(8);
+                        let z_end = (instance.y_offset as usize + instance.height as usize).min(8);
+                        let x_end = (instance.x_offset as usize + instance.width as usize).min(8);
 
                         for z in instance.y_offset as usize..=z_end {
                             for x in instance.x_offset as usize..=x_end {
@@ -536,8 +537,8 @@ fn parse_mh2o_chunk<R: Read + Seek>(
                     }
                     Some(crate::chunks::mh2o::LiquidVertexFormat::HeightUv) => {
                         let mut grid: [Option<HeightUvVertex>; 81] = [None; 81];
-                        let z_end = ((instance.y_offset + instance.height) as usize).min(8);
-                        let x_end = ((instance.x_offset + instance.width) as usize).min(8);
+                        let z_end = (instance.y_offset as usize + instance.height as usize).min(8);
+                        let x_end = (instance.x_offset as usize + instance.width as usize).min(8);
 
                         for z in instance.y_offset as usize..=z_end {
                             for x in instance.x_offset as usize..=x_end {
@@ -554,8 +555,8 @@ fn parse_mh2o_chunk<R: Read + Seek>(
                     }
                     Some(crate::chunks::mh2o::LiquidVertexFormat::DepthOnly) => {
                         let mut grid: [Option<DepthOnlyVertex>; 81] = [None; 81];
-                        let z_end = ((instance.y_offset + instance.height) as usize).min(8);
-                        let x_end = ((instance.x_offset + instance.width) as usize).min(8);
+                        let z_end = (instance.y_offset as usize + instance.height as usize).min(8);
+                        let x_end = (instance.x_offset as usize + instance.width as usize).min(8);
 
                         for z in instance.y_offset as usize..=z_end {
                             for x in instance.x_offset as usize..=x_end {
@@ -572,8 +573,8 @@ fn parse_mh2o_chunk<R: Read + Seek>(
                     }
                     Some(crate::chunks::mh2o::LiquidVertexFormat::HeightUvDepth) => {
                         let mut grid: [Option<HeightUvDepthVertex>; 81] = [None; 81];
-                        let z_end = ((instance.y_offset + instance.height) as usize).min(8);
-                        let x_end = ((instance.x_offset + instance.width) as usize).min(8);
+                        let z_end = (instance.y_offset as usize + instance.height as usize).min(8);
+                        let x_end = (instance.x_offset as usize + instance.width as usize).min(8);
 
                         for z in instance.y_offset as usize..=z_end {
                             for x in instance.x_offset as usize..=x_end {
